@@ -287,7 +287,11 @@ def run_case(case):
                     continue
                 raise Violation("off-map-join-accepted", f"{where}: add_agent at {bad} was accepted")
             try:
-                env.add_agent(a, *pos)
+                if k % 7 == 6 and (not pos or all(v == 0 for v in pos)):
+                    env.addAgent(a)                 # the deprecated spelling (no position: the origin) is still an entry point
+                    labels.add("deprecated-aliases")
+                else:
+                    env.add_agent(a, *pos)
             except Exception as e:
                 raise Violation("join-raised", f"{where}: add_agent raised {type(e).__name__}: {e}")
             seq += 1
@@ -309,7 +313,11 @@ def run_case(case):
                 nontrivial = True
                 labels.add("leave-with-sharers")
             try:
-                models[res_in].environment.remove_agent(a.id)
+                if k % 4 == 3:
+                    models[res_in].environment.removeAgent(a.id)        # the deprecated spelling is still an entry point
+                    labels.add("deprecated-aliases")
+                else:
+                    models[res_in].environment.remove_agent(a.id)
             except Exception as e:
                 raise Violation("leave-raised", f"{where}: remove_agent of a resident agent raised {type(e).__name__}: {e}")
             del where_is[id(a)]
